@@ -151,6 +151,18 @@ func (g *Gen) Package() *GPackage {
 			}
 		}
 	}
+	// bounds only: a field constrained by two or three bounds of the family (and possibly int), so that
+	// subsumption between bounds decides what is removed
+	if g.r.Chance(1, 5) {
+		l := Label{LReg, g.r.Intn(4)}
+		nb := 2 + g.r.Intn(2)
+		for j := 0; j < nb; j++ {
+			decls = append(decls, GDecl{Path: []Label{l}, E: common.Pick(g.r, boundFamily)})
+		}
+		if g.r.Chance(1, 3) {
+			decls = append(decls, GDecl{Path: []Label{l}, E: ScalKind{"int"}})
+		}
+	}
 	common.Shuffle(g.r, decls)
 	for i := range decls {
 		decls[i].File = g.r.Intn(p.NFiles)
